@@ -1,5 +1,4 @@
 package main
 
-func genBasexStream(ctx *Ctx, emit func(Case))   {}
-func genFields(ctx *Ctx, emit func(Case))        {}
-func goExecMore4(t []string) (string, bool)      { return "", false }
+func genBasexStream(ctx *Ctx, emit func(Case)) {}
+func genFields(ctx *Ctx, emit func(Case))      {}
